@@ -5,6 +5,7 @@ CONSTANTS OFFBYONE = FALSE
   KEYGEN0 = TRUE
   DECRYPTMEMBERS = FALSE
   TRAILERMERGE = FALSE
+  ZEROLENUNKNOWN = FALSE
   Objs = {1, 2}
   MaxRevs = 3
   Styles = {"one", "each", "runs"}
